@@ -852,6 +852,7 @@ fn drive_vec<E: Elem>(a: &Args, name: &str, make: &dyn Fn(&str) -> Option<Box<dy
     let rng0 = Rng::new(a.seed);
     let regimes: Vec<(usize, usize, usize)> = if a.thorough() { vec![(60, 24, 10), (400, 6, 44)] } else { vec![(36, 4, 10), (110, 2, 40)] };
     let (mut nev, mut panics, mut refused, mut runs) = (0usize, 0usize, 0usize, 0usize);
+    let mut nontrivial_runs = 0usize; // runs in which the container held something at some point
     let mut opcount: Map<String, Value> = Map::new();
     for (ri, &(steps, nruns, maxlen)) in regimes.iter().enumerate() {
         for run in 0..nruns {
@@ -866,6 +867,7 @@ fn drive_vec<E: Elem>(a: &Args, name: &str, make: &dyn Fn(&str) -> Option<Box<dy
             runs += 1;
             let mut nextval = 1u32;
             let mut tail = vec![];
+            let mut held = false;
             for _ in 0..steps {
                 let live: Vec<usize> = (1..=vr.objs.len()).filter(|&o| vr.objs[o - 1].is_some()).collect();
                 if live.is_empty() {
@@ -957,6 +959,9 @@ fn drive_vec<E: Elem>(a: &Args, name: &str, make: &dyn Fn(&str) -> Option<Box<dy
                 }
                 let c = opcount.entry(op.to_string()).or_insert(json!(0));
                 *c = json!(c.as_u64().unwrap_or(0) + 1);
+                if e["post"]["len"].as_u64().unwrap_or(0) > 0 {
+                    held = true;
+                }
                 tr.ev(e);
                 nev += 1;
                 if vr.dead {
@@ -968,11 +973,14 @@ fn drive_vec<E: Elem>(a: &Args, name: &str, make: &dyn Fn(&str) -> Option<Box<dy
                 tr.ev(e);
                 nev += 1;
             }
+            if held {
+                nontrivial_runs += 1;
+            }
             tr.flush();
         }
     }
     tr.close();
-    json!({"events": nev, "runs": runs, "panics": panics, "refused": refused, "ops": opcount,
+    json!({"events": nev, "runs": runs, "nontrivial_runs": nontrivial_runs, "panics": panics, "refused": refused, "ops": opcount,
            "files": tr.files.iter().map(|p| p.display().to_string()).collect::<Vec<_>>()})
 }
 
@@ -997,6 +1005,7 @@ fn replay_vec<E: Elem>(a: &Args, name: &str, behaviours: &[Value], make: &dyn Fn
     // mismatching behaviours are written for TLC up to `per_key` per kind of difference (operation + what differed)
     let per_key = a.get_u64("per_key", 4) as usize;
     let mut by_key: std::collections::BTreeMap<String, (usize, usize)> = Default::default();
+    let mut nontrivial = 0usize; // executed behaviours in which some step changes the content TLC expects
     for (bi, b) in behaviours.iter().enumerate() {
         if stride > 1 && bi % stride != 0 {
             continue;
@@ -1106,6 +1115,19 @@ fn replay_vec<E: Elem>(a: &Args, name: &str, behaviours: &[Value], make: &dyn Fn
             differs = true;
         }
         executed += 1;
+        {
+            let mut prev = json!(null);
+            let mut changed = false;
+            for (i, sj) in steps.iter().enumerate() {
+                if i > 0 && sj["st"] != prev || i == 0 && sj["st"].as_array().map_or(false, |a| a.iter().any(|x| x.as_array().map_or(false, |y| !y.is_empty()))) {
+                    changed = true;
+                }
+                prev = sj["st"].clone();
+            }
+            if changed {
+                nontrivial += 1;
+            }
+        }
         if differs {
             mism += 1;
         }
@@ -1132,7 +1154,7 @@ fn replay_vec<E: Elem>(a: &Args, name: &str, behaviours: &[Value], make: &dyn Fn
     }
     tr.close();
     let kinds: Map<String, Value> = by_key.iter().map(|(k, v)| (k.clone(), json!({"behaviours": v.0, "judged": v.1}))).collect();
-    json!({"behaviours": executed, "unsupported": unsupported, "mismatching": mism, "mismatch_traces_written": written, "refused": refused, "mismatch_kinds": kinds,
+    json!({"behaviours": executed, "nontrivial": nontrivial, "unsupported": unsupported, "mismatching": mism, "mismatch_traces_written": written, "refused": refused, "mismatch_kinds": kinds,
            "events": tr.total_events, "runs": tr.runs, "files": tr.files.iter().map(|p| p.display().to_string()).collect::<Vec<_>>()})
 }
 
@@ -1457,6 +1479,7 @@ fn drive_dq(a: &Args, name: &str) -> Value {
     let rng0 = Rng::new(a.seed);
     let fam = fam_of(name);
     let (mut nev, mut panics, mut refused, mut runs) = (0usize, 0usize, 0usize, 0usize);
+    let mut nontrivial_runs = 0usize;
     let mut opcount: Map<String, Value> = Map::new();
     let mut run_steps = |tr: &mut Tracer, steps: Option<Vec<Step>>, nsteps: usize, rng: &mut Rng, tag: Value| {
         reg_reset();
@@ -1470,6 +1493,7 @@ fn drive_dq(a: &Args, name: &str) -> Value {
         let mut nextval = 1u32;
         let limit = no_grow_limit(name);
         let mut it = steps.map(|s| s.into_iter());
+        let mut held = false;
         for _ in 0..nsteps {
             let st = match &mut it {
                 Some(i) => match i.next() {
@@ -1535,6 +1559,9 @@ fn drive_dq(a: &Args, name: &str) -> Value {
             }
             let c = opcount.entry(st.op.clone()).or_insert(json!(0));
             *c = json!(c.as_u64().unwrap_or(0) + 1);
+            if e["post"]["len"].as_u64().unwrap_or(0) > 0 {
+                held = true;
+            }
             tr.ev(e);
             nev += 1;
             if dr.dead {
@@ -1546,6 +1573,9 @@ fn drive_dq(a: &Args, name: &str) -> Value {
         for e in tail {
             tr.ev(e);
             nev += 1;
+        }
+        if held {
+            nontrivial_runs += 1;
         }
         tr.flush();
     };
@@ -1581,7 +1611,7 @@ fn drive_dq(a: &Args, name: &str) -> Value {
         }
     }
     tr.close();
-    json!({"events": nev, "runs": runs, "panics": panics, "refused": refused, "ops": opcount,
+    json!({"events": nev, "runs": runs, "nontrivial_runs": nontrivial_runs, "panics": panics, "refused": refused, "ops": opcount,
            "files": tr.files.iter().map(|p| p.display().to_string()).collect::<Vec<_>>()})
 }
 
@@ -1599,6 +1629,7 @@ fn replay_dq(a: &Args, name: &str, behaviours: &[Value]) -> Value {
     // mismatching behaviours are written for TLC up to `per_key` per kind of difference (operation + what differed)
     let per_key = a.get_u64("per_key", 4) as usize;
     let mut by_key: std::collections::BTreeMap<String, (usize, usize)> = Default::default();
+    let mut nontrivial = 0usize; // executed behaviours in which some step changes the content TLC expects
     for (bi, b) in behaviours.iter().enumerate() {
         let steps = match b.as_array() {
             Some(x) => x,
@@ -1710,6 +1741,19 @@ fn replay_dq(a: &Args, name: &str, behaviours: &[Value]) -> Value {
             differs = true;
         }
         executed += 1;
+        {
+            let mut prev = json!(null);
+            let mut changed = false;
+            for (i, sj) in steps.iter().enumerate() {
+                if i > 0 && sj["st"] != prev || i == 0 && sj["st"].as_array().map_or(false, |a| a.iter().any(|x| x.as_array().map_or(false, |y| !y.is_empty()))) {
+                    changed = true;
+                }
+                prev = sj["st"].clone();
+            }
+            if changed {
+                nontrivial += 1;
+            }
+        }
         if differs {
             mism += 1;
         }
@@ -1736,7 +1780,7 @@ fn replay_dq(a: &Args, name: &str, behaviours: &[Value]) -> Value {
     }
     tr.close();
     let kinds: Map<String, Value> = by_key.iter().map(|(k, v)| (k.clone(), json!({"behaviours": v.0, "judged": v.1}))).collect();
-    json!({"behaviours": executed, "unsupported": unsupported, "mismatching": mism, "mismatch_traces_written": written, "refused": refused, "mismatch_kinds": kinds,
+    json!({"behaviours": executed, "nontrivial": nontrivial, "unsupported": unsupported, "mismatching": mism, "mismatch_traces_written": written, "refused": refused, "mismatch_kinds": kinds,
            "events": tr.total_events, "runs": tr.runs, "files": tr.files.iter().map(|p| p.display().to_string()).collect::<Vec<_>>()})
 }
 
@@ -1982,8 +2026,15 @@ fn make_str(name: &str) -> Option<Box<dyn StrS>> {
     })
 }
 
+/// profile "big": strings are megabytes long; every string of such a run is shown as its digest
+/// ({"len":n,"h":[h1,h0]}, zv::digest) - equality of strings is then decided by TLC on the digests
+static BIG: std::sync::atomic::AtomicBool = std::sync::atomic::AtomicBool::new(false);
 fn bj(b: &[u8]) -> Value {
-    bytes_json(b)
+    if BIG.load(std::sync::atomic::Ordering::Relaxed) {
+        digest(b)
+    } else {
+        bytes_json(b)
+    }
 }
 fn bsj(v: &[Vec<u8>]) -> Value {
     Value::Array(v.iter().map(|b| bj(b)).collect())
@@ -2022,6 +2073,12 @@ fn rand_str(rng: &mut Rng, profile: &str) -> String {
         "long" => &["a", "b", "c", "d"],
         _ => &["a", "b", "c"],
     };
+    if profile == "big" {
+        // 3 bytes .. 1 MiB + 5 bytes, around the 20-bit boundary
+        let n = *rng.pick(&[3usize, (1 << 20) - 1, 1 << 20, (1 << 20) + 5, 70_000]);
+        let c = *rng.pick(&["x", "y", "z"]);
+        return c.repeat(n);
+    }
     let n = match profile {
         "long" => rng.below(40) as usize,
         _ => {
@@ -2045,18 +2102,27 @@ fn drive_str(a: &Args, name: &str) -> Value {
     let rng0 = Rng::new(a.seed);
     let fam = fam_of(name);
     let (mut nev, mut panics, mut refused, mut runs) = (0usize, 0usize, 0usize, 0usize);
+    let mut nontrivial_runs = 0usize;
     let mut opcount: Map<String, Value> = Map::new();
     let profiles: &[&str] = &["abc", "utf8", "nul", "long"];
     let (nruns, steps) = if a.thorough() { (24, 40) } else { (4, 22) };
-    for run in 0..nruns {
+    // one more run with strings around and above 1 MiB (length fields of 20 / 24 bits) for the arena types
+    let big_run = matches!(name, "sortable:new" | "bitpacked32:new" | "bitpacked64:new" | "advanced:level_0" | "advanced:level_1");
+    for run in 0..(nruns + big_run as usize) {
         let mut rng = rng0.derive(&format!("{name}/{run}"));
-        let profile = profiles[run % profiles.len()];
+        let profile = if run == nruns { "big" } else { profiles[run % profiles.len()] };
+        BIG.store(profile == "big", std::sync::atomic::Ordering::Relaxed);
+        let steps = if profile == "big" { 5 } else { steps };
         tr.reset("strseq", name, json!({"fam": fam, "variant": variant_of(name), "profile": profile, "seed": a.seed}));
         runs += 1;
         let mut objs: Vec<Option<Box<dyn StrS>>> = vec![];
         let mut pool: Vec<String> = vec![]; // strings used so far (needles)
         let mut dead = false;
+        let held = std::cell::Cell::new(false);
         let emit = |tr: &mut Tracer, e: Value, nev: &mut usize| {
+            if e["post"]["len"].as_u64().unwrap_or(0) > 0 {
+                held.set(true);
+            }
             tr.ev(e);
             *nev += 1;
         };
@@ -2124,6 +2190,9 @@ fn drive_str(a: &Args, name: &str) -> Value {
             let o = *rng.pick(&live);
             let ops = objs[o - 1].as_ref().unwrap().ops();
             let w = |op: &str| -> u64 {
+                if profile == "big" {
+                    return (op == "push") as u64;
+                }
                 match op {
                     "push" => 50,
                     "sort" => 8,
@@ -2220,10 +2289,13 @@ fn drive_str(a: &Args, name: &str) -> Value {
                 std::mem::forget(b);
             }
         }
+        if held.get() {
+            nontrivial_runs += 1;
+        }
         tr.flush();
     }
     tr.close();
-    json!({"events": nev, "runs": runs, "panics": panics, "refused": refused, "ops": opcount,
+    json!({"events": nev, "runs": runs, "nontrivial_runs": nontrivial_runs, "panics": panics, "refused": refused, "ops": opcount,
            "files": tr.files.iter().map(|p| p.display().to_string()).collect::<Vec<_>>()})
 }
 
